@@ -1,4 +1,5 @@
 import IncanModel.Tool.Cargo
+import IncanModel.Tool.Scanners
 import IncanModel.Driver.Util
 namespace Incan.Driver
 open Incan.Cargo
@@ -28,6 +29,10 @@ def manifestLine (name : String) (flags : String) (crates : String) (program : B
     s!"pkg={name} bin={name} deps={";".intercalate (deps.map fun e => nameStr e.1 ++ "=" ++ showSpec e.2)}"
 
 def handleC15 : List String → String
+  | ["scan", feature, path] =>
+    let steps := path.splitOn ">"
+    let followed := if feature == "serde" then Incan.Scanners.jsonSteps else Incan.Scanners.asyncSteps
+    if Incan.Scanners.scans followed steps then "detected" else "missed"
   | ["manifest", name, flags, crates, _rep] => manifestLine name flags crates
   | ["trigger", name, flags, crates, _scenario, _rep]
   | ["build", name, flags, crates, _where, _rep] =>
